@@ -1,5 +1,6 @@
 import DryocVerif.Proofs.Blake2bSimd
 import DryocVerif.Proofs.Blake2bMain
+import DryocVerif.Proofs.Blake2bBackend
 /-
 C18 — results do not depend on the backend.
 
@@ -46,9 +47,32 @@ theorem simd_compress_eq (h : Array UInt64) (hh : h.size = 8) (t0 t1 f0 f1 : UIn
     Model.Blake2bSimd.compress h t0 t1 f0 f1 block = Model.Blake2b.compress h t0 t1 f0 f1 block :=
   Proofs.Blake2bSimd.simd_compress_eq h hh t0 t1 f0 f1 block hb
 
-/-- `Model.Blake2bSimd.compress` has the type of a compression function, so every theorem about
-`updateC` / `finalizeC` / `hashChunksC` (chunking law, `buf_le_128`, …) applies to it -/
-example : Compress := Model.Blake2bSimd.compress
+/-- test (evaluated in the kernel, not a theorem about all inputs): the RFC 7693 Appendix A vector
+BLAKE2b-512("abc") and the digest of the empty string, computed THROUGH `Model.Blake2bSimd` (the table-driven SIMD
+`compress` under the shared `init` / `update` / `finalize`).  A degenerate SIMD model (e.g. tables that make
+`compress` ignore the block) would fail here, independently of the equivalence proofs. -/
+example :
+    Model.Blake2bSimd.hashChunks 64 none [[0x61, 0x62, 0x63]] = .ok
+      [0xba,0x80,0xa5,0x3f,0x98,0x1c,0x4d,0x0d,0x6a,0x27,0x97,0xb6,0x9f,0x12,0xf6,0xe9,
+       0x4c,0x21,0x2f,0x14,0x68,0x5a,0xc4,0xb7,0x4b,0x12,0xbb,0x6f,0xdb,0xff,0xa2,0xd1,
+       0x7d,0x87,0xc5,0x39,0x2a,0xab,0x79,0x2d,0xc2,0x52,0xd5,0xde,0x45,0x33,0xcc,0x95,
+       0x18,0xd3,0x8a,0xa8,0xdb,0xf1,0x92,0x5a,0xb9,0x23,0x86,0xed,0xd4,0x00,0x99,0x23] ∧
+    Model.Blake2bSimd.hashChunks 64 none [] = .ok
+      [0x78,0x6a,0x02,0xf7,0x42,0x01,0x59,0x03,0xc6,0xc6,0xfd,0x85,0x25,0x52,0xd2,0x72,
+       0x91,0x2f,0x47,0x40,0xe1,0x58,0x47,0x61,0x8a,0x86,0xe2,0x17,0xf7,0x1f,0x54,0x19,
+       0xd2,0x5e,0x10,0x31,0xaf,0xee,0x58,0x53,0x13,0x89,0x64,0x44,0x93,0x4e,0xb0,0x4b,
+       0x90,0x3a,0x68,0x5b,0x14,0x48,0xb7,0x55,0xd5,0x6f,0x70,0x1a,0xfe,0x9b,0xe2,0xce] := by
+  decide +kernel
+
+set_option maxRecDepth 100000 in
+/-- test (evaluated): a keyed, multi-block, multi-chunk input through the SIMD model equals the software model, and
+differs from the unkeyed digest (the key block is really compressed) -/
+example :
+    Model.Blake2bSimd.hashChunks 32 (some (List.replicate 32 7)) [List.replicate 100 1, List.replicate 60 2] =
+      Model.Blake2b.hashChunks 32 (some (List.replicate 32 7)) [List.replicate 100 1, List.replicate 60 2] ∧
+    Model.Blake2bSimd.hashChunks 32 (some (List.replicate 32 7)) [List.replicate 100 1, List.replicate 60 2] ≠
+      Model.Blake2bSimd.hashChunks 32 none [List.replicate 100 1, List.replicate 60 2] := by
+  decide +kernel
 
 /-- **C18, whole hash**: `init`, `update`s, `finalize` with the SIMD backend = the same with
 the software backend — same digest, same `Err`, same panic — for all arguments. -/
@@ -60,6 +84,134 @@ theorem simd_hashChunks_eq (outLen : Nat) (key salt personal : Option Bytes) (cs
 theorem simd_hashChunks_eq' (outLen : Nat) (key : Option Bytes) (cs : List Bytes) :
     Model.Blake2bSimd.hashChunks outLen key cs = Model.Blake2b.hashChunks outLen key cs :=
   simd_hashChunks_eq outLen key none none cs
+
+/-! ### the incremental object API, call by call -/
+
+/-- **`State::init`** under the SIMD backend = under the software backend: same state (after the key block, if
+any, has been absorbed), same `Err`, same panic — for all arguments. -/
+theorem simd_init_eq (outlen : Nat) (key salt personal : Option Bytes) :
+    Model.Blake2bSimd.init outlen key salt personal = Model.Blake2b.init outlen key salt personal :=
+  (Proofs.Blake2bSimd.initC_congr Proofs.Blake2bSimd.simd_agree outlen key salt personal).1
+
+/-- **`State::update`** under the SIMD backend = under the software backend, from any state whose chaining value
+has 8 words (the Rust type `[u64; 8]` / two `Simd<u64, 4>`), for any input; the resulting state again has 8 words,
+so the law chains along any sequence of calls. -/
+theorem simd_update_eq (st : Model.Blake2b.State) (hs : st.h.size = 8) (x : Bytes) :
+    Model.Blake2bSimd.update st x = Model.Blake2b.update st x ∧ (Model.Blake2b.update st x).h.size = 8 :=
+  Proofs.Blake2bSimd.updateC_congr Proofs.Blake2bSimd.simd_agree st hs x
+
+/-- **`State::finalize`** under the SIMD backend = under the software backend, from any 8-word state, for any
+output length (same digest, same `Err`). -/
+theorem simd_finalize_eq (st : Model.Blake2b.State) (hs : st.h.size = 8) (outLen : Nat) :
+    Model.Blake2bSimd.finalize st outLen = Model.Blake2b.finalize st outLen :=
+  Proofs.Blake2bSimd.finalizeC_congr Proofs.Blake2bSimd.simd_agree st hs outLen
+
+/-- every state `init` returns has an 8-word chaining value (the hypothesis `hs` of the two laws above is met
+along every run that starts with `init`) -/
+theorem init_h_size (outlen : Nat) (key salt personal : Option Bytes) (st : Model.Blake2b.State)
+    (h : Model.Blake2b.init outlen key salt personal = .ok st) : st.h.size = 8 :=
+  (Proofs.Blake2bSimd.initC_congr Proofs.Blake2bSimd.simd_agree outlen key salt personal).2 st h
+
+/-- non-vacuity witness for `hs`: the state of an unkeyed 32-byte `init` -/
+example : ∃ st, Model.Blake2b.init 32 none none none = .ok st ∧ st.h.size = 8 :=
+  ⟨_, rfl, init_h_size 32 none none none _ rfl⟩
+
+/-! ### everything built on top: `hash`, `longhash`, `crypto_generichash*`, and through them kdf / kx / sealed-box nonce / Argon2
+
+`Model.Blake2b.{hashC, longhashC, generichashC, generichashInitC}` (`Model/Blake2bBackend.lean`) are the text of
+`hash`, `longhash` and the generichash wrappers over an arbitrary compression function, the way `hashChunksC` is;
+`Model.Blake2b.{hash, longhash, generichash, generichashInit}` are their instances at the software `compress`. -/
+
+/-- `Model.Blake2b.longhash` is `longhashC` at the software compression function (so nothing proved about
+`longhash` changes) -/
+theorem longhash_eq_longhashC (n : Nat) (inp : Bytes) :
+    Model.Blake2b.longhash n inp = Model.Blake2b.longhashC Model.Blake2b.compress n inp :=
+  Proofs.Blake2bBackend.longhash_eq_longhashC n inp
+
+/-- **`blake2b::longhash`** (Argon2's H′) under the SIMD backend = under the software backend: same bytes, same
+panic, for every output length and input. -/
+theorem simd_longhash_eq (n : Nat) (inp : Bytes) :
+    Model.Blake2b.longhashC Model.Blake2bSimd.compress n inp = Model.Blake2b.longhash n inp :=
+  Proofs.Blake2bBackend.simd_longhash_eq n inp
+
+/-- … hence the SIMD backend's `longhash` is Argon2's H′ (RFC 9106 §3.3) -/
+theorem simd_longhash_eq_hprime (outLen : Nat) (inp : Bytes) (h4 : 4 < outLen) (h32 : outLen < 2^32 - 1)
+    (hin : inp.length + 132 < 2^64) :
+    Model.Blake2b.longhashC Model.Blake2bSimd.compress outLen inp = .ok (Spec.Argon2.hprime outLen inp) := by
+  rw [simd_longhash_eq]; exact Proofs.Blake2b.longhash_eq_hprime outLen inp h4 h32 hin
+
+/-- non-vacuity witness (1024-byte output: the multi-chunk branch of `longhash`) -/
+example : Model.Blake2b.longhashC Model.Blake2bSimd.compress 1024 [1, 2] = .ok (Spec.Argon2.hprime 1024 [1, 2]) :=
+  simd_longhash_eq_hprime 1024 [1, 2] (by omega) (by omega) (by simp)
+
+/-- **`blake2b::hash`** (one-shot) under the SIMD backend = under the software backend, all arguments -/
+theorem simd_hash_eq (outLen : Nat) (input : Bytes) (key : Option Bytes) :
+    Model.Blake2b.hashC Model.Blake2bSimd.compress outLen input key = Model.Blake2b.hash outLen input key :=
+  Proofs.Blake2bBackend.simd_hash_eq outLen input key
+
+/-- **`crypto_generichash`** under the SIMD backend = under the software backend, all arguments -/
+theorem simd_generichash_eq (outLen : Nat) (input : Bytes) (key : Option Bytes) :
+    Model.Blake2b.generichashC Model.Blake2bSimd.compress outLen input key =
+      Model.Blake2b.generichash outLen input key :=
+  Proofs.Blake2bBackend.simd_generichash_eq outLen input key
+
+/-- **`crypto_generichash_init`** (with salt / personal) under the SIMD backend = under the software backend;
+`_update` / `_final` are `simd_update_eq` / `simd_finalize_eq` -/
+theorem simd_generichashInit_eq (key : Option Bytes) (outlen : Nat) (salt personal : Option Bytes) :
+    Model.Blake2b.generichashInitC Model.Blake2bSimd.compress key outlen salt personal =
+      Model.Blake2b.generichashInit key outlen salt personal :=
+  Proofs.Blake2bBackend.simd_generichashInit_eq key outlen salt personal
+
+/-- **the BLAKE2b primitive of `crypto_kdf`, `crypto_kx`, the sealed-box nonce and Argon2's prehash**
+(`State::init(outlen, key, salt, personal)`, `update`, `finalize` — `Model.Blake2b.codeBlake2b C`, in the shape of
+the field `Model.Curve.Prims.blake2b`) is the same function under both backends … -/
+theorem simd_codeBlake2b_eq :
+    Model.Blake2b.codeBlake2b Model.Blake2bSimd.compress = Model.Blake2b.codeBlake2b Model.Blake2b.compress :=
+  Proofs.Blake2bBackend.simd_codeBlake2b_eq
+
+/-- … so the models of kdf, kx, kx seed keypair (every function of `Model.Curve.Prims`) and of the sealed box
+(every function of `Model.SecretBox.Prims`) instantiated with the CODE's BLAKE2b do not depend on the backend:
+the two primitive records are equal. -/
+theorem simd_prims_eq :
+    Proofs.Blake2bBackend.codePrims Model.Blake2bSimd.compress = Proofs.Blake2bBackend.codePrims Model.Blake2b.compress ∧
+    Proofs.Blake2bBackend.codeBoxPrims Model.Blake2bSimd.compress =
+      Proofs.Blake2bBackend.codeBoxPrims Model.Blake2b.compress :=
+  ⟨Proofs.Blake2bBackend.simd_codePrims_eq, Proofs.Blake2bBackend.simd_codeBoxPrims_eq⟩
+
+/-- on the arguments those callers pass, the code's primitive (either backend) IS the RFC 7693 function the
+driver-run models (`Model.Curve.specPrims`, `Model.boxPrims`) are instantiated with -/
+theorem simd_codeBlake2b_eq_spec (n : Nat) (k s p m : Bytes) (hn : 1 ≤ n ∧ n ≤ 64) (hk : k.length ≤ 64)
+    (hs : s = [] ∨ s.length = 16) (hp : p = [] ∨ p.length = 16) (hm : m.length + 128 < 2^128) :
+    Model.Blake2b.codeBlake2b Model.Blake2bSimd.compress n k s p m = Spec.Blake2b.hashSP n k s p m :=
+  Proofs.Blake2bBackend.simd_codeBlake2b_eq_spec n k s p m hn hk hs hp hm
+
+/-- **`crypto_kdf_derive_from_key`** with the SIMD backend's BLAKE2b = the model the driver runs (spec primitive),
+for every subkey length (valid or not), id, 8-byte context and key of at most 64 bytes (the Rust key is 32) -/
+theorem simd_kdf_eq (len id : Nat) (ctx key : Bytes) (hc : ctx.length = 8) (hk : key.length ≤ 64) :
+    Model.Curve.kdfDerive (Proofs.Blake2bBackend.codePrims Model.Blake2bSimd.compress) len id ctx key =
+      Model.Curve.kdfDerive Model.Curve.specPrims len id ctx key := by
+  rw [Proofs.Blake2bBackend.simd_codePrims_eq]
+  exact Proofs.Blake2bBackend.kdfDerive_code_eq_spec len id ctx key hc hk
+
+/-- **`crypto_kx`** session-key derivation with the SIMD backend's BLAKE2b = the model the driver runs -/
+theorem simd_kx_eq (cpk spk shared : Bytes) (hl : (shared ++ cpk ++ spk).length + 128 < 2^128) :
+    Model.Curve.kx (Proofs.Blake2bBackend.codePrims Model.Blake2bSimd.compress) cpk spk shared =
+      Model.Curve.kx Model.Curve.specPrims cpk spk shared := by
+  rw [Proofs.Blake2bBackend.simd_codePrims_eq]
+  exact Proofs.Blake2bBackend.kx_code_eq_spec cpk spk shared hl
+
+/-- **`crypto_box_seal` nonce** with the SIMD backend's BLAKE2b = the model the driver runs -/
+theorem simd_seal_nonce_eq (epk rpk : Bytes) (hl : (epk ++ rpk).length + 128 < 2^128) :
+    Model.SecretBox.sealNonce (Proofs.Blake2bBackend.codeBoxPrims Model.Blake2bSimd.compress) epk rpk =
+      Model.SecretBox.sealNonce Model.boxPrims epk rpk := by
+  rw [Proofs.Blake2bBackend.simd_codeBoxPrims_eq]
+  exact Proofs.Blake2bBackend.sealNonce_code_eq_spec epk rpk hl
+
+/-- non-vacuity witness for `simd_kdf_eq` / `simd_kx_eq` / `simd_seal_nonce_eq`: 32-byte keys, 8-byte context -/
+example : Model.Curve.kdfDerive (Proofs.Blake2bBackend.codePrims Model.Blake2bSimd.compress) 32 7
+      (List.replicate 8 0x41) (List.replicate 32 9) =
+    Model.Curve.kdfDerive Model.Curve.specPrims 32 7 (List.replicate 8 0x41) (List.replicate 32 9) :=
+  simd_kdf_eq 32 7 _ _ List.length_replicate (by rw [List.length_replicate]; omega)
 
 /-- the SIMD compression function is RFC 7693 `F` (via `compress_eq_spec`) -/
 theorem simd_compress_eq_spec (h : Array UInt64) (t0 t1 f0 f1 : UInt64) (block : Bytes) (T : Nat)
@@ -86,21 +238,22 @@ theorem simd_hashChunks_chunking (outLen : Nat) (key salt personal : Option Byte
       hashChunksC Model.Blake2bSimd.compress outLen key salt personal [cs.flatten] :=
   Proofs.Blake2b.hashChunksC_eq Model.Blake2bSimd.compress outLen key salt personal cs
 
-/-- **container independence** is definitional in the models: every Rust container
+/-- (remark, not counted as a property theorem — it is `f x = f y` from `x = y`)
+**container independence** is definitional in the models: every Rust container
 (`Vec<u8>`, `[u8; N]`, `HeapBytes`, `HeapByteArray`, protected memory, …) is modelled by the
 byte list it derefs to, so a result depends on the containers only through their contents.
 Spelled out: for any two container types with their `as_slice` views, equal contents give
 equal results, whatever the backend. -/
-theorem container_independence {α β : Type} (viewA : α → Bytes) (viewB : β → Bytes)
+example {α β : Type} (viewA : α → Bytes) (viewB : β → Bytes)
     (C : Compress) (outLen : Nat) (key salt personal : Option Bytes)
     (xs : List α) (ys : List β) (h : xs.map viewA = ys.map viewB) :
     hashChunksC C outLen key salt personal (xs.map viewA) =
       hashChunksC C outLen key salt personal (ys.map viewB) := by
   rw [h]
 
-/-- backend and container independence together: SIMD backend on containers of one kind =
+/-- (remark, not counted as a property theorem) backend and container independence together: SIMD backend on containers of one kind =
 software backend on containers of another kind holding the same bytes -/
-theorem backend_container_independence {α β : Type} (viewA : α → Bytes) (viewB : β → Bytes)
+example {α β : Type} (viewA : α → Bytes) (viewB : β → Bytes)
     (outLen : Nat) (key salt personal : Option Bytes)
     (xs : List α) (ys : List β) (h : xs.map viewA = ys.map viewB) :
     hashChunksC Model.Blake2bSimd.compress outLen key salt personal (xs.map viewA) =
@@ -117,3 +270,17 @@ open DryocVerif.Properties.C18 in
 #print axioms schedule_eq_sigma
 open DryocVerif.Properties.C18 in
 #print axioms simd_hashChunks_eq_spec
+open DryocVerif.Properties.C18 in
+#print axioms simd_update_eq
+open DryocVerif.Properties.C18 in
+#print axioms simd_longhash_eq
+open DryocVerif.Properties.C18 in
+#print axioms simd_longhash_eq_hprime
+open DryocVerif.Properties.C18 in
+#print axioms simd_prims_eq
+open DryocVerif.Properties.C18 in
+#print axioms simd_kdf_eq
+open DryocVerif.Properties.C18 in
+#print axioms simd_kx_eq
+open DryocVerif.Properties.C18 in
+#print axioms simd_seal_nonce_eq
